@@ -587,6 +587,71 @@ func (n *NativeScript) Evaluate(
 	})
 }
 
+// EvaluateWithValidity evaluates the script against a validity interval whose
+// bounds are optional: nil means the transaction has no such bound, in which
+// case invalid-before / invalid-hereafter never hold (ledger semantics:
+// lteNegInfty / ltePosInfty).
+func (n *NativeScript) EvaluateWithValidity(
+	validityStart, validityEnd *uint64,
+	keyHashes map[Blake2b224]bool,
+) bool {
+	return n.EvaluateWithValidityAndGuards(
+		validityStart, validityEnd, keyHashes, nil,
+	)
+}
+
+// EvaluateWithValidityAndGuards is EvaluateWithValidity with the guard
+// credentials of the transaction (see EvaluateWithGuards).
+func (n *NativeScript) EvaluateWithValidityAndGuards(
+	validityStart, validityEnd *uint64,
+	keyHashes map[Blake2b224]bool,
+	guardCredentials []Credential,
+) bool {
+	ctx := nativeScriptEvalContext{
+		keyHashes:        keyHashes,
+		guardCredentials: newCredentialSet(guardCredentials),
+		noStart:          validityStart == nil,
+		noEnd:            validityEnd == nil,
+	}
+	if validityStart != nil {
+		ctx.validityStart = *validityStart
+	}
+	if validityEnd != nil {
+		ctx.validityEnd = *validityEnd
+	}
+	return n.evaluate(ctx)
+}
+
+// TxValidityInterval returns the validity interval of a transaction with
+// optional bounds. Presence of body keys 8 (start) and 3 (upper bound) is
+// taken from the original body bytes, because the decoded bodies keep both
+// as plain uint64 and cannot tell an explicit 0 from an absent key.
+func TxValidityInterval(tx Transaction) (start, end *uint64) {
+	var env []cbor.RawMessage
+	if _, err := cbor.Decode(tx.Cbor(), &env); err == nil && len(env) > 0 {
+		var body map[uint64]cbor.RawMessage
+		if _, err := cbor.Decode(env[0], &body); err == nil {
+			if _, ok := body[8]; ok {
+				v := tx.ValidityIntervalStart()
+				start = &v
+			}
+			if _, ok := body[3]; ok {
+				v := tx.TTL()
+				end = &v
+			}
+			return start, end
+		}
+	}
+	// No original bytes: fall back to "0 means not set"
+	if v := tx.ValidityIntervalStart(); v != 0 {
+		start = &v
+	}
+	if v := tx.TTL(); v != 0 {
+		end = &v
+	}
+	return start, end
+}
+
 func (n *NativeScript) EvaluateWithGuards(
 	slot uint64,
 	validityStart, validityEnd uint64,
@@ -604,6 +669,8 @@ func (n *NativeScript) EvaluateWithGuards(
 type nativeScriptEvalContext struct {
 	validityStart    uint64
 	validityEnd      uint64
+	noStart          bool
+	noEnd            bool
 	keyHashes        map[Blake2b224]bool
 	guardCredentials map[credentialKey]bool
 }
@@ -668,13 +735,13 @@ func (n *NativeScript) evaluate(ctx nativeScriptEvalContext) bool {
 		// Transaction is only valid at or after this slot
 		// For native scripts, we check against the transaction's validity interval
 		// The tx must start at or after the script's slot requirement
-		return ctx.validityStart >= s.Slot
+		return !ctx.noStart && ctx.validityStart >= s.Slot
 
 	case *NativeScriptInvalidHereafter:
 		// Transaction is only valid before this slot
 		// The tx must end at or before the script's slot requirement
 		// TTL = X means tx valid at slots [start, X), which is entirely within [0, X)
-		return ctx.validityEnd <= s.Slot
+		return !ctx.noEnd && ctx.validityEnd <= s.Slot
 
 	case *NativeScriptRequireGuard:
 		if ctx.guardCredentials == nil {
